@@ -541,13 +541,18 @@ pub struct Pt { pub x: i32, pub y: i32 }
 fn hex(b: &[u8]) -> String { if b.is_empty() { return "-".into(); } b.iter().map(|x| format!("{:02x}", x)).collect() }
 /// fails permanently once `limit` bytes were accepted; accepts at most `chunk` bytes per call;
 /// reports Interrupted on every `intr`-th call
-struct Fault { limit: usize, chunk: usize, intr: usize, calls: usize, got: Vec<u8>, failed: bool, after_fail: usize }
+struct Fault { limit: usize, chunk: usize, intr: usize, calls: usize, got: Vec<u8>, failed: bool, after_fail: usize, flavour: usize }
+/// the failure a sink reports: an error with a payload, an operating-system error (no payload), a bare kind
+fn injected(flavour: usize) -> io::Error {
+    match flavour % 3 { 0 => io::Error::new(io::ErrorKind::Other, "injected"), 1 => io::Error::from_raw_os_error(32), _ => io::ErrorKind::ConnectionReset.into() }
+}
+fn same_error(a: &io::Error, b: &io::Error) -> bool { a.kind() == b.kind() && a.raw_os_error() == b.raw_os_error() && a.to_string() == b.to_string() && a.get_ref().is_some() == b.get_ref().is_some() }
 impl Write for Fault {
     fn write(&mut self, data: &[u8]) -> io::Result<usize> {
         self.calls += 1;
-        if self.failed { self.after_fail += 1; return Err(io::Error::new(io::ErrorKind::Other, "injected")); }
+        if self.failed { self.after_fail += 1; return Err(injected(self.flavour)); }
         if self.intr > 0 && self.calls % self.intr == 0 { return Err(io::Error::new(io::ErrorKind::Interrupted, "intr")); }
-        if self.got.len() >= self.limit { self.failed = true; return Err(io::Error::new(io::ErrorKind::Other, "injected")); }
+        if self.got.len() >= self.limit { self.failed = true; return Err(injected(self.flavour)); }
         let n = data.len().min(self.chunk).min(self.limit - self.got.len());
         self.got.extend_from_slice(&data[..n]);
         Ok(n)
@@ -560,13 +565,14 @@ fn faults(id: &str, full: &[u8], run: &dyn Fn(&mut dyn Write) -> io::Result<()>)
     let offsets: Vec<usize> = if n <= 48 { (0..=n + 1).collect() } else { let mut v: Vec<usize> = (0..16).collect(); v.extend((16..n).step_by(n / 24 + 1)); v.extend([n - 1, n, n + 1]); v };
     for (j, k) in offsets.iter().enumerate() {
         let (chunk, intr) = match j % 4 { 0 => (1, 0), 1 => (usize::MAX, 0), 2 => (3, 2), _ => (7, 5) };
-        let mut f = Fault { limit: *k, chunk, intr, calls: 0, got: vec![], failed: false, after_fail: 0 };
+        let flavour = j / 4 + *k;
+        let mut f = Fault { limit: *k, chunk, intr, calls: 0, got: vec![], failed: false, after_fail: 0, flavour };
         let r = run(&mut f);
         runs += 1;
         let want = &full[..(*k).min(n)];
         if f.got != want { println!("F {} {} prefix: accepted {} is not the first {} bytes of the full rendering {}", id, k, hex(&f.got), k, hex(full)); }
         if (*k < n) != r.is_err() { println!("F {} {} result: limit {} of {} bytes but the function returned {:?}", id, k, k, n, r.as_ref().map_err(|e| e.to_string())); }
-        if let Err(e) = &r { if e.to_string() != "injected" { println!("F {} {} error: returned error is {:?}, not the injected one", id, k, e.to_string()); } }
+        if let Err(e) = &r { if !same_error(e, &injected(flavour)) { println!("F {} {} error: returned error is {:?} (kind {:?}, os error {:?}), not the injected one {:?}", id, k, e.to_string(), e.kind(), e.raw_os_error(), injected(flavour).to_string()); } }
         if f.after_fail > 0 { println!("F {} {} continued: {} write calls after the sink failed", id, k, f.after_fail); }
     }
     println!("S {} {}", id, runs);
